@@ -18,6 +18,10 @@ DEMOS = {
     ("C06", "change2"): ("cptest", "c06_change2_demo.rs", "c06_change2_demo"),
     ("C09", "change1"): ("cpmod", "c09_demo_minmax_test.rs:src/command/handlers/query/merge/:register_demo_test.diff", "-E 'test(c09_demo_min_max)'"),
     ("C09", "change2"): ("cpmod", "c09_demo_nullable_total_test.rs:src/engine/core/read/flow/operators/:register_demo_test.diff", "-E 'test(c09_demo_nullable_total)'"),
+    ("C07", "change1"): ("py", "SNELDB_BIN", "demo_stale_block_cache.py"),
+    ("C07", "change2"): ("py", "SNELDB_BIN", "demo_u64_after_compaction.py"),
+    ("C08", "change1"): ("cptest", "c08_calendar_wide_zone_demo.rs", "c08_calendar_wide_zone_demo"),
+    ("C08", "change2"): ("cptest", "c08_surf_many_zones_demo.rs", "c08_surf_many_zones_demo"),
     ("C13", "change1"): ("py", "SNELDB_BIN", "demo_grant_leak.py"),
     ("C13", "change2"): ("py", "SNELDB_BIN", "demo_revoked_user_forged_sig.py"),
 }
